@@ -195,7 +195,12 @@ func New(secretImpl string) *World {
 }
 
 // Close releases the static KMS key.
-func (w *World) Close() { w.Static.Close() }
+func (w *World) Close() {
+	w.Static.Close()
+	if w.plug != nil && w.plug.close != nil {
+		w.plug.close()
+	}
+}
 
 // Metastore returns the metastore the factories should be given.
 func (w *World) Metastore() appencryption.Metastore {
@@ -274,7 +279,7 @@ func (w *World) Revoke(id string, created int64, at time.Time) bool {
 		s.Revoked = true
 	}
 	w.flips = append(w.flips, Flip{id, created, at})
-	if w.plug != nil && !w.plug.tbl.SetRevoked(id, created) {
+	if w.plug != nil && !w.plug.revoke(id, created) {
 		panic(fmt.Sprintf("back end %s: no item (%s,%d) to revoke", w.plug.name, id, created))
 	}
 	return true
